@@ -101,8 +101,11 @@ def run(rep, facts):
             (rep.ok if i["status"] == "ok" else rep.violation)("R1.3", inst, i["detail"], i["loc"])
         if inst in ("params/params-data", "params/params-end", "params/params-foreign"):
             (rep.ok if i["status"] == "ok" else rep.violation)("R1.4", inst, i["detail"], i["loc"])
-        if i["status"] != "ok" and inst.startswith("params/") and ("untested" in inst or "missing" in inst):
+        elif i["status"] != "ok" and inst.startswith("params/"):
+            # any other record met during the Params stream must leave the preamble decoding where it was
             rep.violation("R1.4", inst, i["detail"], i["loc"])
+        elif i["status"] != "ok" and inst.startswith("header/"):
+            rep.violation("R1.3", inst, i["detail"], i["loc"])
     nb = facts.body(REQ + "::new")
     ok = False
     for (b, bi, si, st) in F.aggregates_of(facts, REQ):
